@@ -83,7 +83,8 @@ class Policy(BiddingSystem, PlayingSystem):
         self.last_env = env
         self.cards += 1
         pool = sorted(env.current_available_cards(hand), key=int)
-        return self.r.choice(pool)
+        c = self.r.choice(pool)
+        return pool[0] if self.board in self.forced else c
 
 
 class VClient(Client):
